@@ -119,9 +119,27 @@ func tputs() {
 	n := int64(0)
 	nontriv := int64(0)
 	var rec func(d int)
+	var check func(s string)
 	rec = func(d int) {
 		if d > 0 {
-			s := string(buf[:d])
+			check(string(buf[:d]))
+		}
+		if d == L {
+			return
+		}
+		for _, c := range alpha {
+			buf[d] = c
+			if d == 1 {
+				idx++
+				if !hc.Mine(idx) {
+					continue
+				}
+			}
+			rec(d + 1)
+		}
+	}
+	check = func(s string) {
+		{
 			outs, det, sleep := acceptable(s)
 			for _, ti := range tis {
 				n++
@@ -154,21 +172,15 @@ func tputs() {
 				nontriv++
 			}
 		}
-		if d == L {
-			return
-		}
-		for _, c := range alpha {
-			buf[d] = c
-			if d == 1 {
-				idx++
-				if !hc.Mine(idx) {
-					continue
-				}
-			}
-			rec(d + 1)
-		}
 	}
 	rec(0)
+	if *hc.Shard == 0 {
+		// well-formed specifications longer than the enumeration bound: many integer and
+		// fraction digits (the delay is the number written, whatever its length)
+		for _, sp := range []string{"$<300.0000000>", "$<1.50000000000>", "$<0.000001>", "$<0.0000001>", "$<12.3456789*/>", "a$<0000000005>b", "$<100.000000>$<100.0000000>", "$<99999>"} {
+			check(sp)
+		}
+	}
 	w.R.Evaluations += n
 	w.AddDistinct(nontriv)
 	w.R.Scenarios["tputs"] = map[string]interface{}{"alphabet": string(alpha), "max_len": L, "cases_this_shard": n}
